@@ -170,6 +170,25 @@ func (s *clSched) choose(P []*clPend) int {
 			return s.choices[s.step] % n
 		}
 		return 0
+	case "rflast", "rflastc":
+		// keep every ReadConfig(<name>/latest) of client 0 back as long as anything else can run: its goroutines install
+		// their heads in memory and then sit just before the configuration read while the other clients complete
+		var pref []int
+		for i, p := range P {
+			if !(p.kind == "rf" && p.c == 0 && strings.HasSuffix(p.file, "/latest")) {
+				pref = append(pref, i)
+			}
+		}
+		if len(pref) > 0 {
+			if s.strategy == "rflastc" {
+				return pref[0]
+			}
+			return pref[s.rng.Intn(len(pref))]
+		}
+		if s.strategy == "rflastc" {
+			return 0
+		}
+		return s.rng.Intn(n)
 	case "conflict", "memrace":
 		// conflict: keep every configuration write back as long as anything else can run, so that all clients
 		// read the same configuration before the first of them writes.
@@ -246,7 +265,7 @@ func clParLookups(out *clOutcome, arg string) bool {
 	env := out.env
 	s := &clSched{strategy: parts[0], ackCh: make(chan struct{}, 1), buf: make([]byte, 1<<18)}
 	switch s.strategy {
-	case "canon", "last", "rr", "rand", "conflict", "memrace":
+	case "canon", "last", "rr", "rand", "conflict", "memrace", "rflast", "rflastc":
 		seed, err := strconv.ParseUint(parts[1], 10, 64)
 		if err != nil {
 			return false
